@@ -1,6 +1,8 @@
 """C01-C04: Hermitian block diagonalisation (shared problem construction, per-property obligations)."""
 from __future__ import annotations
 
+from fractions import Fraction
+
 import numpy as np
 
 from .. import bd, symc
@@ -8,6 +10,7 @@ from ..engine import Rec
 from ..symc import SymC
 
 TOL = 1e-7
+NAMES = ["Ht", "U", "Uinv"]
 
 
 def _sig(cfg, what):
@@ -53,8 +56,13 @@ def _setup(prop, cfg):
         raise
     except Exception as e:
         is_lib, where = library_exception_info(e)
+        via_third_party = False
         if not is_lib:
-            raise
+            # raised inside numpy/sympy called by the library: the library's own only if the concrete replay below raises as well
+            is_lib2, where2 = library_exception_info(e, pure_inputs=True)
+            if not is_lib2:
+                raise
+            via_third_party, where = True, where2
         # replay at a seeded rational point through the public API with concrete values
         from .. import sympy_bridge as sb
 
@@ -64,6 +72,8 @@ def _setup(prop, cfg):
             _numeric(P, model, callback=(P.carrier == "B"))
         except Exception as e2:
             reproduced = type(e2) is type(e)
+        if via_third_party and not reproduced:
+            raise  # artefact of the symbolic carrier, not of the library
         rec.direct_violation(
             f"library raised {type(e).__name__} on a well-posed input", _sig(cfg, "raised-" + type(e).__name__),
             {"exception": f"{type(e).__name__}: {e}", "where": where, "replayed_with_concrete_values": reproduced}, reproduced=reproduced,
@@ -414,3 +424,104 @@ def c04(cfg, prop="C04"):
         else:
             rec.guard("twin_drop_Ht2_detected", False, "structurally equal")
     return rec
+
+
+# ------------------------------------------------------------------------------------------------
+# dtype-branch twin (C01 / C05): the object-array carrier cannot follow `dtype`-dependent branches of the library (float64 vs
+# complex128 vs int inputs, `np.iscomplexobj`, in-place arithmetic on typed arrays).  The symbolic run is decided correct by the
+# solver in the other jobs; here the SAME real code is run on typed numpy inputs at one dyadic point per dtype variant and must
+# reproduce the symbolic result evaluated at that point (translation validation of the dtype branches, concrete by nature).
+
+_TWIN_VALUES = [Fraction(1), Fraction(-1), Fraction(2), Fraction(1, 2), Fraction(-3, 2), Fraction(3), Fraction(-2), Fraction(1, 4), Fraction(-1, 2)]
+_TWIN_INTS = [Fraction(1), Fraction(-1), Fraction(2), Fraction(-2), Fraction(3)]
+
+
+def dtype_twin(cfg):
+    prop = "C01" if cfg.get("hermitian", True) else "C05"
+    rec = Rec(prop, cfg)
+    P = bd.Problem(cfg)
+    assert P.E_num is not None, "dtype twin needs a numeric spectrum"
+    Ht, U, Ud = P.run()
+    sym = [P.dense(S) for S in (Ht, U, Ud)]
+    names = sorted(symc.CTX.vars)
+    variant = cfg["dtype"]
+    model = {}
+    prefixes = sorted({nm.split("_")[0] for nm in names})
+    real_terms = set(prefixes[1::2]) if variant == "mixed" else set()
+    for k, nm in enumerate(names):
+        if nm.endswith("_i") and (variant in ("float64", "int") or nm.split("_")[0] in real_terms):
+            model[nm] = Fraction(0)
+        else:
+            pool = _TWIN_INTS if variant == "int" else _TWIN_VALUES
+            model[nm] = pool[(3 * k + len(nm)) % len(pool)]
+    E, terms = P.concretize(model)
+    if variant == "float64":
+        assert all(abs(np.asarray(t).imag).max() == 0 for t in terms.values())
+        terms = {o: np.ascontiguousarray(t.real, dtype=float) for o, t in terms.items()}
+    elif variant == "int":
+        terms = {o: np.ascontiguousarray(t.real).astype(int) for o, t in terms.items()}
+    elif variant == "mixed":
+        # terms whose imaginary parts vanish at the point are passed as float64 arrays, the others as complex128
+        terms = {o: (np.ascontiguousarray(t.real, dtype=float) if not np.any(t.imag) else t) for o, t in terms.items()}
+        assert len({t.dtype for t in terms.values()}) == 2, "mixed variant needs one real and one complex term"
+    snapshot = {o: t.copy() for o, t in terms.items()}
+    try:
+        num = bd.numeric_run(P.sizes, E, terms, hermitian=P.hermitian, fd=cfg.get("fd"), max_order=P.max_order, callback=(P.carrier == "B"),
+                             int_h0=(variant == "int"))
+    except Exception as e:  # noqa: BLE001
+        is_lib, where = library_exception_info(e, pure_inputs=True)
+        if not is_lib:
+            raise
+        rec.direct_violation(f"library raised on {variant} input", _sig(cfg, f"dtype-{variant}-raised-{type(e).__name__}"),
+                             {"exception": f"{type(e).__name__}: {e}"[:300], "where": where}, reproduced=True)
+        return rec
+    worst = 0.0
+    bad = None
+    for w in range(3):
+        for o in P.orders:
+            S = sym[w].get(o)
+            want = np.array([[complex(*map(float, bd.evaluate(S[i, j], model))) for j in range(P.N)] for i in range(P.N)])
+            got = np.asarray(num[w][o], dtype=complex)
+            err = float(np.max(np.abs(got - want)))
+            sc = max(1.0, float(np.max(np.abs(want))))
+            worst = max(worst, err / sc)
+            if err > 1e-9 * sc and bad is None:
+                bad = dict(series=NAMES[w], order=list(o), max_abs_error=err, scale=sc, dtype=variant)
+    mutated = [list(o) for o, t in terms.items() if not np.array_equal(t, snapshot[o])]
+    if bad:
+        rec.direct_violation(f"{variant} run differs from the symbolic run at the same point", _sig(cfg, f"dtype-{variant}"), bad, reproduced=True)
+    elif mutated:
+        rec.direct_violation(f"{variant} run modified the caller's input arrays", _sig(cfg, f"dtype-{variant}-input-mutated"), {"orders": mutated, "dtype": variant}, reproduced=True)
+    else:
+        rec.discharged(f"{variant} library run == symbolic run evaluated at the dyadic point, all series and orders (max rel. dev. {worst:.1e}); inputs unmodified", "confirmed")
+    rec.nontrivial = True
+    rec.sample = {"config": cfg, "variables": len(names)}
+    return rec
+
+
+def dtype_twin_configs(tier, hermitian=True):
+    base = [
+        dict(carrier="A", sizes=[1, 1], spectrum=["0", "2"], terms=[[1]], max_order=4),
+        dict(carrier="A", sizes=[2, 2], spectrum=["0", "2", "1", "4"], terms=[[1], [2]], max_order=3),
+        dict(carrier="A", sizes=[2, 1], spectrum=["0", "0", "2"], terms=[[1]], max_order=3),
+        dict(carrier="A", sizes=[2, 2], spectrum=["0", "2", "1", "4"], terms=[[1]], max_order=3, fd=[0]),
+        dict(carrier="A", sizes=[3], spectrum=["0", "1", "2"], terms=[[1]], max_order=3),
+        dict(carrier="A", sizes=[1, 2], spectrum=["0", "1", "2"], terms=[[1]], max_order=3, fd={"1": [[0, 1], [1, 0]]}),
+        dict(carrier="A", sizes=[1, 1, 2], spectrum=["0", "1", "2", "2"], terms=[[1, 0], [0, 1]], max_order=2),
+        dict(carrier="B", sizes=[1, 2], spectrum=["0", "1", "3"], terms=[[1], [2]], max_order=3),
+    ]
+    if tier == "thorough":
+        base += [
+            dict(carrier="A", sizes=[2, 2], spectrum=["1", "2", "0", "0"], terms=[[1]], max_order=3),
+            dict(carrier="A", sizes=[3, 1], spectrum=["0", "2", "2", "4"], terms=[[1]], max_order=4, fd={"0": [[0, 1, 1], [1, 0, 0], [1, 0, 0]]}),
+            dict(carrier="A", sizes=[1, 1, 1], spectrum=["0", "1", "2"], terms=[[1], [2]], max_order=4),
+            dict(carrier="B", sizes=[2, 2], spectrum=["0", "1", "3", "7"], terms=[[1, 0], [0, 1], [1, 1]], max_order=3),
+            dict(carrier="B", sizes=[1, 1, 2], spectrum=["0", "1", "3", "7"], terms=[[1]], max_order=4),
+        ]
+    out = []
+    for b in base:
+        for variant in ("float64", "complex128", "mixed", "int"):
+            if variant == "mixed" and len(b["terms"]) < 2:
+                continue
+            out.append(dict(b, hermitian=hermitian, dtype=variant, _job="dtype_twin"))
+    return out
